@@ -82,7 +82,21 @@ fn forms(ctx: &mut Ctx, env: &Env, rng: &mut Rng, base: &Engine, descr: &str) {
             }
         })
         .collect();
-    outs.push(("time-stamped strings, alignment off", e.synthesize(timed).map_err(|e| format!("{}", e))));
+    outs.push(("time-stamped strings, alignment off", e.synthesize(timed.clone()).map_err(|e| format!("{}", e))));
+    // both at once: blank lines (also in front) between time-stamped lines
+    let mut both: Vec<String> = vec![String::new()];
+    for t in &timed {
+        both.push(t.clone());
+        if rng.chance(0.3) {
+            both.push(String::new());
+        }
+    }
+    outs.push(("blank line first, then time-stamped strings", e.synthesize(both).map_err(|e| format!("{}", e))));
+    let mut mixed: Vec<String> = Vec::new();
+    for (i, t) in timed.iter().enumerate() {
+        mixed.push(if i % 2 == 0 { strings[i].clone() } else { t.clone() });
+    }
+    outs.push(("stamped and plain lines alternating", e.synthesize(mixed).map_err(|e| format!("{}", e))));
     // odd but valid time spellings
     let weird: Vec<String> = strings.iter().map(|s| format!("{} {} {}", *rng.pick(&["0", "1e3", "2.5", "+7", "-1", "1e400", "inf", "NaN"]), *rng.pick(&["0", "1e5", "3.25e6", "-1", "1e400", "nan"]), s)).collect();
     outs.push(("float-spelled time stamps, alignment off", e.synthesize(weird).map_err(|e| format!("{}", e))));
@@ -234,6 +248,9 @@ pub fn run(ctx: &mut Ctx) {
         let mut lines = vec![rng.pick(&env.corpus.lines).clone()];
         let pos = rng.below(2);
         lines.insert(pos, bad.clone());
+        if rng.chance(0.3) {
+            lines.insert(0, String::new());
+        }
         let mut e = if idx % 50 == 0 { bundled.clone() } else { tiny.clone() };
         e.condition.set_phoneme_alignment_flag(idx % 4 == 0);
         let r = guard(|| e.synthesize(lines.clone()));
